@@ -262,6 +262,12 @@ func (x *Unit) oblige(st *State, kind, label string, tags []string, cond Term, s
 			return
 		}
 	}
+	if kind == "safety" && x.FU.Contract != nil {
+		if why, ok := x.FU.Contract.Unchecked[label]; ok {
+			x.assumedAt = append(x.assumedAt, fmt.Sprintf("%s: safety condition %s (%s) is NOT checked: %s", x.FU.Name, label, src, why))
+			return
+		}
+	}
 	name := x.FU.Pkg.Name + "." + x.FU.Name + "#" + kind
 	if label != "" {
 		name += "[" + label + "]"
